@@ -18,12 +18,14 @@ package main
 //@     transition (= doc (ite (= idx@iter 0) (Document.Data (rlnth docs 0)) (interF (Document.Data (rlnth docs 0)) doc@iter)))   [C16]
 //
 //@ func intersect(a, b) (res, err)
+//@   propagates all   [C08]
 //@   ensures (not (isErr err))
 //@   ensures (= res (interF a b))                                                  [C16]
 //@   ensures (=> (= a b) (= res a))                                                [C16]
 //@   decreases (rank a) 2
 //
 //@ func intersectMap(a, b) (res, err)
+//@   propagates all   [C08]
 //@   requires ((_ is VMap) a) (not (= b VNil))
 //@   ensures (not (isErr err))
 //@   ensures (= res (interF a b))                                                  [C16]
@@ -31,6 +33,7 @@ package main
 //@   decreases (rank a) 1
 //
 //@ func intersectMapMap(a, b) (res, err)
+//@   propagates all   [C08]
 //@   requires ((_ is VMap) a) ((_ is VMap) b)
 //@   ensures (not (isErr err))
 //@   ensures (= res (interF a b))                                                  [C16]
@@ -43,12 +46,14 @@ package main
 //@     invariant (=> (= a b) (forall ((j String)) (=> (select visited j) (= (select (mc ret) j) (select (mc a) j)))))
 //
 //@ func intersectList(a, b) (res, err)
+//@   propagates all   [C08]
 //@   requires (not (= b VNil))
 //@   ensures (not (isErr err))
 //@   ensures (= res (interF a b))                                                  [C16]
 //@   ensures (=> (= a b) (= res a))                                                [C16]
 //
 //@ func intersectListList(a, b) (res, err)
+//@   propagates all   [C08]
 //@   uses appNil, snocApp, keepAll, allInRefl
 //@   ensures (not (isErr err))
 //@   ensures (= res (interF a b))                                                  [C16]
